@@ -25,7 +25,7 @@ def make_cfg(rng, tag):
     cfg['trains'] = [t for t in cfg['trains'] if False]
     for ti in range(2):
         bits = rng.sample([0, 1, 2, 3, 4, 8, 9, 10, 11, 16, 17, 18, 24, 25, 31], 8)
-        cfg['trains'].append({'id': f'tr{ti}', 'addr': (0x30 + ti, 0x40 + ti), 'steps': 28, 'calibration': None,
+        cfg['trains'].append({'id': f'tr{ti}', 'addr': cfggen.free_dcc(cfg, (0x30 + ti, 0x40 + ti)), 'steps': 28, 'calibration': None,
                               'peripherals': [{'id': f'tr{ti}f{b}', 'bit': b, 'initial': None} for b in bits]})
     b0 = cfg['boards'][0]
     b0['uid'] = bytes([b0['uid'][0] | 0x12]) + b0['uid'][1:]
